@@ -56,7 +56,7 @@ func keep(d *m.Design) bool {
 func TestViews(t *testing.T) {
 	n := rt.EnvInt("VERIF_CHECKS", 24)
 	seed := rt.EnvInt("VERIF_SEED", 1)
-	sess, built := rt.Prepare(t, "c08", rt.Options{Profile: gen.Views(), N: n, Seed: seed, Keep: keep})
+	sess, built := rt.Prepare(t, "c08", rt.Options{Profile: gen.Views(), N: n, Seed: seed, Keep: keep, Extra: []*m.Design{gen.ViewMatrix()}})
 	defer sess.Close()
 	defer rt.CloseAll(built)
 	if len(built) == 0 {
@@ -146,7 +146,7 @@ func checkMethod(t *testing.T, b *rt.Built, s *m.Service, meth *m.Method) bool {
 						fv, ok := exp.Get(f.Name)
 						k := d.Underlying(f.Attr)
 						if f.Required && ok && fv.K != "skip" && !fv.IsNil() && !inHeaderOrCookie(meth, f.Name) && k != m.Array && k != m.Map && k != m.Bytes &&
-							!(k == m.Object && kf.Open("C08-required-object-absent-client-panic")) {
+							!((k == m.Object || f.Attr.Type.Kind == m.User) && kf.Open("C08-required-object-absent-client-panic")) {
 							cands = append(cands, f.Name)
 						}
 					}
